@@ -182,8 +182,8 @@ class OracleRunner(kscript.Runner):
             name, ev, was, raised = a
             self.rec.append(('trigger', self._tick(), name, self.lab(ev), was, raised))
         elif what == 'interrupt':
-            name, victim, cause, alive, selfi, raised, me = a
-            self.rec.append(('interrupt', self._tick(), name, (self.pnames.get(id(victim)), id(victim)), cause, alive, selfi, raised, self.env.now))
+            name, victim, cause, alive, selfi, raised, me, busy = a
+            self.rec.append(('interrupt', self._tick(), name, (self.pnames.get(id(victim)), id(victim)), cause, alive, selfi, raised, self.env.now, busy))
         elif what == 'cond':
             ev, kind, evs = a
             self.conds[self.lab(ev)] = (kind, list(evs), self.env.now, self._tick())
@@ -365,16 +365,29 @@ def oracle_c04(case, lines, runner=None):
     issued = {}      # victim name -> list of (cause, now)
     got = {}
     waiting = {}
+    owed = {}        # victim -> the accepted interrupt it must receive before anything else resumes it
     for rec in r.rec:
         if rec[0] == 'yield':
             waiting[rec[2]] = rec
+        if rec[0] == 'resumed':
+            # restates "receive Interrupt(cause) at its current yield at the current simulated time, before any ordinary event of that
+            # instant": a suspended process whose awaited event is not already being processed is resumed next by the interrupt
+            # (or by an interrupt issued earlier), never by something else first - an interrupt is urgent and due at once
+            y = waiting.get(rec[2])
+            o = None if (y is not None and y[5]) else owed.pop(rec[2], None)      # continuing after an already processed event is no resumption
+            if o is not None and not is_interrupt_delivery(rec, y):
+                fails.append({'what': f'process {rec[2][0]} was interrupted (cause {o[4]}) at {o[8]} while it was waiting, but the next thing it '
+                                      f'received, at {rec[5]}, is {"the value" if rec[3] else "the exception"} {rec[4]!r} of the event it was waiting for, '
+                                      f'not the Interrupt: an ordinary event overtook the interrupt', 'signature': 'c04-overtaken'}); break
         if rec[0] == 'resumed' and (not rec[3]) and type(rec[4]).__name__ == 'Interrupt':
             y = waiting.get(rec[2])
             if y is not None and getattr(y[6], '_ok', True) is False and getattr(rec[4], '__cause__', None) is y[6]._value:
                 continue      # not an interrupt: the awaited event (a process that re-raised its Interrupt) failed with this
                               # exception - the kernel throws a copy whose __cause__ is the awaited event's own exception
         if rec[0] == 'interrupt':
-            _, seq, by, victim, cause, alive, selfi, raised, now = rec
+            _, seq, by, victim, cause, alive, selfi, raised, now, busy = rec
+            if not raised and not busy and not selfi:
+                owed.setdefault(victim, rec)
             should = (not alive) or selfi
             if should != raised:
                 fails.append({'what': f'interrupt() called at {now} by process {by} on process {victim[0]} (alive: {alive}, itself: {selfi}) '
